@@ -25,6 +25,11 @@ CLAIMED = {
          "Restore must reproduce the recording taken at checkpoint time (bit-exact floats), ids of listed checkpoints are distinct and every listed id restores; in every enumerated crash state of a checkpoint write, earlier checkpoints restore exactly and the interrupted one restores completely or fails leaving the live state unchanged.",
          "Crash enumeration assumes the write sequence create_dir_all -> File::create -> write_all -> retention (cross-checked by real size-limited crashes); no fsync/power-loss reordering modelled.",
          "DESIGN.md §6 C20, §8"),
+ "C18": ("exploration",
+         "model-based property testing of the module manager: exhaustive enumeration of all operation histories up to length 4-6 over several alphabets plus random histories, against a module-graph model (acyclicity, refused imports change nothing, visibility queries always answer, visibility equals the declarations)",
+         "In every reachable state of millions of enumerated histories: the declared import relation among existing modules is acyclic and equals get_import_graph, a cycle-closing or self import returns Err and changes nothing, visibility queries return Ok for every existing module, and (without re-export clauses) visibility equals 'owns, or imports with a matching pattern from an existing module that exports it'.",
+         "States with re-export clauses are judged by necessary/sufficient bounds only (the repository's own tests call their meaning unsettled); 4 module names bound the cycle length.",
+         "DESIGN.md §6 C18"),
  "C19": ("exploration",
          "differential property testing under perturbed schedules: generated rule sets x thread configurations, each executed repeatedly with a yield/spin/sleep hook at schedule points inside the worker loop, compared with the sequential path of the same engine and with REF",
          "For every generated configuration and every repetition: the call returns, there is exactly one execution context per enabled rule, the (rule, fired) map and both counters equal the sequential path, and the sequential verdicts equal REF where defined. Schedules are sampled (OS + hook), not enumerated: a sound oracle with stress-level schedule coverage.",
@@ -45,6 +50,21 @@ CLAIMED = {
          "After every operation of every history, presence in working memory of every handle ever issued equals the model's least-fixpoint support verdict; the set returned by retract_with_cascade equals the model's removed set; TMS flags agree. Exhaustive to 8-10 operations on small fact counts (millions of histories per quick run).",
          "Acyclic support only (premises are live and older than the fact, as the quantifier says); no rules loaded.",
          "DESIGN.md §6 C08"),
+ "C09": ("exploration",
+         "property-based testing of backward chaining over generated Horn knowledge bases: soundness judged by REF on the returned facts and by an over-approximated forward closure (possible-values fixpoint), bounded completeness judged by a derivation-height reference on monotone KBs",
+         "For every generated (KB, store, goal, config): a provable answer implies the goal comparison is true in the facts handed back and satisfiable in the forward closure; under DFS on monotone conjunctive KBs a goal with derivation height <= max_depth must be provable. All three strategies, max_depth 0..6, max_solutions 1 and 3.",
+         "Trusts REF and the 40-line closure/height computations in harness/src/bc.rs; engine panics/errors are counted, not judged; numeric equality goals not generated.",
+         "DESIGN.md §6 C09"),
+ "C10": ("exploration",
+         "differential (before/after) property testing of failed backward-chaining proofs, and model-based testing of the undo-frame API against a snapshot-stack model with exhaustive enumeration of all operation sequences of length 5-6",
+         "Whenever a generated query is reported not provable the caller's facts are deeply equal to what they were; every sequence of begin/commit/rollback/set/set_nested/remove (exhaustive to length 5 in quick, 6 in thorough, random to 10) leaves get_all_facts(), snapshot() and the open-frame count equal to the snapshot-stack model after every operation.",
+         "Open-frame count read through hook verif_undo_depth; engine panics/errors during a query are counted, not judged.",
+         "DESIGN.md §6 C10"),
+ "C11": ("exploration",
+         "differential property testing of query histories: every query of a generated history on one engine is compared with the same query on a freshly built engine on a deep copy of the same facts",
+         "The k-th answer of every generated history (queries interleaved with fact changes, fresh equal stores, retractions in an attached RETE engine; memoisation on and off) equals the fresh engine's answer, so any dependence on history - and any run-to-run nondeterminism - shows as a disagreement.",
+         "The fresh engine is the same code without history, so a defect that is independent of history is invisible here (C09 owns it).",
+         "DESIGN.md §6 C11"),
  "C12": ("exploration",
          "model-based property testing of windows under an injected clock: generated event sequences in all arrival orders (exhaustive over all orders of 5-6 events) against interval arithmetic, a retention validity predicate and harness-side aggregate folds",
          "Tumbling placement (WindowedStream, WindowManager, TimeWindow, StreamAlphaNode), sliding retention after every record (nothing older than the span, nothing younger dropped except oldest-first by the cap, either notion of oldest accepted) and count/sum/average/min/max against a fold over exactly the window's events.",
